@@ -101,7 +101,7 @@ class Ctx:
             return rc == 0, out + out2
 
     def _make(self, targets):
-        gen = ('SendClauses.v', 'Profile.v', 'Structure.v', 'VmemCalls.v', 'Kernels.v')
+        gen = ('SendClauses.v', 'Profile.v', 'Structure.v', 'VmemCalls.v', 'Kernels.v', 'SplitFns.v')
         if not all(os.path.exists(os.path.join(COQ, 'gen', g)) for g in gen):
             sh(['python3', os.path.join(ROOT, 'tools', 'extract_facts.py')])      # a tree without build output (fresh snapshot)
         if not os.path.exists(os.path.join(COQ, 'Makefile')) or \
